@@ -112,5 +112,5 @@ func runOnce(checkLimits bool) {
 	}
 }
 
-func VerifC09_UnshareRun() { runOnce(false) }
+func VerifC09_UnshareRun()   { runOnce(false) }
 func VerifC08_UnshareUsage() { runOnce(true) }
